@@ -18,11 +18,11 @@ mod verif_c06_cache_wit {
         }
         // negative speeds-like first components too, and rounding is symmetric around zero
         assert_eq!(policy.get(&[-30.0, 0.0]).unwrap(), None);
-        assert_eq!(to_precision(-1.26, 1), -13);
-        assert_eq!(to_precision(1.26, 1), 13);
-        assert_eq!(to_precision(-0.004, 2), 0);
-        assert_eq!(to_precision(-0.006, 2), -1);
-        assert_eq!(policy.float_key_to_int_key(&[-12.34, -0.056]), vec![-123, -6]);
+        assert_eq!(to_precision(-1.26, 1) as i128, -13);
+        assert_eq!(to_precision(1.26, 1) as i128, 13);
+        assert_eq!(to_precision(-0.004, 2) as i128, 0);
+        assert_eq!(to_precision(-0.006, 2) as i128, -1);
+        assert_eq!(policy.float_key_to_int_key(&[-12.34, -0.056]).iter().map(|k| *k as i128).collect::<Vec<i128>>(), vec![-123, -6]);
         // inputs that round to the same key share the value (that is the cache's stated precision), others do not
         assert_eq!(policy.get(&[30.04, -0.021]).unwrap(), Some(101.0));
         assert_eq!(policy.get(&[30.06, -0.02]).unwrap(), None);
